@@ -28,12 +28,18 @@ def bodies_in(c, prefix):
 def rule_who_may(prog):
     out = Out("WHO-MAY")
     c = prog.lsp
-    # process::exit
+    # process::exit: per lifecycle phase (helpers the phase calls count for the phase)
+    phase_of = {}
+    for ph in ("initialization", "main", "shutdown"):
+        pb = prog.body("lsp4spl::server::phases::" + ph)
+        if pb is not None:
+            for fb in _phase_bodies(prog, pb):
+                phase_of.setdefault(fb["p"], "server::phases::" + ph)
     sites = {}
     for b in c.bodies:
         for n in hir.nodes(b["body"], "Call"):
             if is_exit_call(n):
-                sites.setdefault(b["d"], []).append(n)
+                sites.setdefault(phase_of.get(b["p"], b["d"]), []).append(n)
     expected = {"server::phases::initialization": 2, "server::phases::main": 1}
     for fn in sorted(set(sites) | set(expected)):
         got = len(sites.get(fn, []))
@@ -80,7 +86,8 @@ def rule_who_may(prog):
             continue  # serde derive output (deserialising a Response the client sent is an error path anyway)
         for s in hir.nodes(b["body"], "Struct"):
             if s.get("adt") == "lsp4spl::io::Response":
-                ok = b["d"].startswith("io::PreparedResponse::")
+                ok = b["d"].startswith("io::PreparedResponse::") or hir.only_called_from(
+                    prog, b["p"], lambda x: x["d"].startswith("io::PreparedResponse::"))
                 out.add(b["d"], "Response is built only from a PreparedResponse", ok, c.loc(s["sp"]),
                         "a Response must carry the id of the request it answers", ("resp",))
             if s.get("adt") == "lsp4spl::io::PreparedResponse":
@@ -108,13 +115,47 @@ def rule_who_may(prog):
         for s in hir.nodes(bs[0]["body"], "Struct"):
             if s.get("adt") == "lsp4spl::io::Response":
                 f = {x["name"]: x["e"] for x in s["fields"]}
-                ok = (place(f.get("id", {})) or "").endswith("self#%s.id" % bs[0]["params"][0].get("id", "")) or \
-                     (place(f.get("id", {})) or "").endswith(".id")
+                ok = (place(f.get("id", {})) or "").endswith(".id")
+        for call in hir.nodes(bs[0]["body"], "Call"):
+            hb = hir.local_callee_body(prog, call)
+            if hb is not None and any(x.get("adt") == "lsp4spl::io::Response" for x in hir.nodes(hb["body"], "Struct")):
+                # Response::new(self.id, ..): the id argument is the prepared id
+                ok = any((place(a) or "").endswith(".id") and (place(a) or "").startswith("self#") for a in call["args"])
         out.add("io::PreparedResponse::" + fn, "response id = prepared id", ok, c.loc(bs[0]["sp"]), "", ("resp",))
     return out
 
 
 # ------------------------------------------------------------------ LIFECYCLE
+
+_PROG = {}
+
+
+def _error_code(call):
+    """ErrorCode variant used to build the argument of into_error_response (through local lets and helper fns)."""
+    prog, body = _PROG.get("prog"), _PROG.get("body")
+    roots = list(call.get("args") or [])
+    seen = 0
+    while roots and seen < 6:
+        seen += 1
+        nxt = []
+        for r in roots:
+            for p in hir.nodes(r, "Path"):
+                co = p["res"].get("ctor_of", "")
+                if co.startswith("lsp4spl::error::ErrorCode::"):
+                    return last(co)
+                if p["res"].get("k") == "Local" and body is not None:
+                    for l in hir.nodes(body["body"], "Let"):
+                        if l.get("init") is not None and any(bd["id"] == p["res"]["id"] for bd in hir.pat_bindings(l["pat"])):
+                            nxt.append(l["init"])
+            if prog is not None:
+                for cl in hir.nodes(r):
+                    if cl.get("k") in ("Call", "MethodCall"):
+                        hb = hir.local_callee_body(prog, cl)
+                        if hb is not None:
+                            nxt.append(hb["body"])
+        roots = nxt
+    return None
+
 
 def _classify_factory(c):
     def classify(n):
@@ -126,12 +167,7 @@ def _classify_factory(c):
             if d.startswith("io::PreparedResponse::into_result_response"):
                 return ("into", n, "result")
             if d.startswith("io::PreparedResponse::into_error_response"):
-                code = None
-                for p in hir.nodes(n, "Path"):
-                    co = p["res"].get("ctor_of", "")
-                    if co.startswith("lsp4spl::error::ErrorCode::"):
-                        code = last(co)
-                return ("into", n, code)
+                return ("into", n, _error_code(n))
             if n["m"] == "send":
                 for p in hir.nodes(n, "Path"):
                     co = p["res"].get("ctor_of", "")
@@ -147,25 +183,62 @@ def _classify_factory(c):
     return classify
 
 
-def _phase_loops(c, body):
+def _phase_bodies(prog, body, depth=2, seen=None):
+    """the phase function plus the local helper functions (same module) it calls"""
+    if seen is None:
+        seen = []
+    if body in seen:
+        return seen
+    seen.append(body)
+    if depth > 0:
+        for n in hir.nodes(body["body"]):
+            if n.get("k") in ("Call", "MethodCall"):
+                hb = hir.local_callee_body(prog, n)
+                if hb is not None and hb["p"].startswith("lsp4spl::server::") and hb not in seen:
+                    _phase_bodies(prog, hb, depth - 1, seen)
+    return seen
+
+
+def _phase_loops(prog, body):
     res = []
-    for n in hir.nodes(body["body"], "While"):
-        cond = hir.strip(n["cond"])
-        if cond.get("k") == "LetExpr" and any(m["m"] == "next" for m in hir.nodes(cond["init"], "MethodCall")):
-            res.append(n)
+    for fb in _phase_bodies(prog, body):
+        for n in hir.nodes(fb["body"], "While"):
+            cond = hir.strip(n["cond"])
+            if cond.get("k") == "LetExpr" and any(m["m"] == "next" for m in hir.nodes(cond["init"], "MethodCall")):
+                res.append((n, fb))
     return res
 
 
 def _message_arms(c, loop):
+    """variant -> list of arms (a variant may have a guarded and an unguarded arm)"""
+    best = {}
     for m in hir.nodes(loop["body"], "Match"):
         arms = {}
         for arm in m["arms"]:
             pv = hir.pat_variant(arm["pat"])
             if pv and pv.startswith("lsp4spl::io::Message::"):
-                arms[last(pv)] = arm
-        if arms:
-            return arms
-    return {}
+                arms.setdefault(last(pv), []).append(arm)
+        if len(arms) > len(best):
+            best = arms
+    return best
+
+
+def _tail_ok(prog, body, depth=0):
+    """does the function end in Ok(..) (possibly through a local helper it returns the result of)?"""
+    tail = _async_tail(body)
+    if tail is None or depth > 3:
+        return False
+    t = hir.strip(tail)
+    while t.get("k") in ("Await", "Try"):
+        t = hir.strip(t["e"])
+    if t.get("k") == "Call":
+        d = hir.path_def(t["f"])
+        if d and last(d.get("ctor_of", "")) == "Ok":
+            return True
+        hb = hir.local_callee_body(prog, t)
+        if hb is not None:
+            return _tail_ok(prog, hb, depth + 1)
+    return False
 
 
 def rule_lifecycle(prog):
@@ -179,34 +252,29 @@ def rule_lifecycle(prog):
             return out
         phases[name] = b
     classify = _classify_factory(c)
+    _PROG["prog"] = prog
     want_loops = {"initialization": 2, "main": 1, "shutdown": 1}
     for name, b in phases.items():
-        loops = _phase_loops(c, b)
+        loops = _phase_loops(prog, b)
         out.add("server::phases::" + name, "has %d frame loop(s)" % want_loops[name], len(loops) == want_loops[name],
                 c.loc(b["sp"]), "found %d" % len(loops), ("shape",))
-        for li, loop in enumerate(loops):
+        for li, (loop, lbody) in enumerate(loops):
+            _PROG["body"] = lbody
             arms = _message_arms(c, loop)
             item = "server::phases::%s[loop %d]" % (name, li + 1)
             if set(arms) != {"Request", "Notification", "Response"}:
                 out.add(item, "dispatches on Request/Notification/Response", False, c.loc(loop["sp"]), "found %s" % sorted(arms), ("shape",))
                 continue
-            # (a) every path through the Request arm: one split, one into_*, one send, in this order
-            try:
-                ps = flow.paths(arms["Request"]["body"], classify)
-            except OverflowError:
-                out.add(item, "request paths enumerable", None, c.loc(arms["Request"]["sp"]))
-                ps = []
-            # the common `iotx.send(..)` after the arm's inner match is part of the arm body block: fine
+            # (a) every path through the Request arm(s): one split, one into_*, one send, in this order
+            ps = []
+            for rarm in arms["Request"]:
+                try:
+                    ps += flow.paths(rarm["body"], classify)
+                except OverflowError:
+                    out.add(item, "request paths enumerable", None, c.loc(rarm["sp"]))
             seen = set()
             for p in ps:
                 evs = [e[0] for e in p]
-                method = None
-                key = tuple((e[0], e[2] if len(e) > 2 else None) for e in p)
-                # discriminate paths by the source line-free signature: sequence of events + callee names
-                names = []
-                for e in p:
-                    if e[0] == "split":
-                        pass
                 sig = _path_sig(c, p)
                 if sig in seen:
                     continue
@@ -214,8 +282,7 @@ def rule_lifecycle(prog):
                 n_split, n_into, n_send = evs.count("split"), evs.count("into"), evs.count("send")
                 ok = n_split == 1 and n_into == 1 and n_send == 1 and \
                     evs.index("split") < evs.index("into") < evs.index("send")
-                # the PreparedResponse consumed is the one split off this request, and the Response sent is its product
-                locn = c.loc(p[-1][1]["sp"]) if p and isinstance(p[-1][1], dict) else c.loc(arms["Request"]["sp"])
+                locn = c.loc(p[-1][1]["sp"]) if p and isinstance(p[-1][1], dict) else c.loc(arms["Request"][0]["sp"])
                 out.add(item, "request path %s: exactly one response" % sig, ok, locn,
                         "events on this path: %s" % evs, ("one-response",))
             # (b) error codes
@@ -224,23 +291,24 @@ def rule_lifecycle(prog):
                 for e in p:
                     if e[0] == "into" and e[2] != "result":
                         codes.add(e[2])
+            rloc = c.loc(arms["Request"][0]["sp"])
             if name == "initialization":
                 out.add(item, "requests before initialize are rejected with ServerNotInitialized",
-                        codes == {"ServerNotInitialized"}, c.loc(arms["Request"]["sp"]), "codes used: %s" % sorted(map(str, codes)), ("codes",))
+                        codes == {"ServerNotInitialized"}, rloc, "codes used: %s" % sorted(map(str, codes)), ("codes",))
             elif name == "shutdown":
                 out.add(item, "requests after shutdown are rejected with InvalidRequest", codes == {"InvalidRequest"},
-                        c.loc(arms["Request"]["sp"]), "codes used: %s" % sorted(map(str, codes)), ("codes",))
+                        rloc, "codes used: %s" % sorted(map(str, codes)), ("codes",))
                 results = [e for p in ps for e in p if e[0] == "into" and e[2] == "result"]
-                out.add(item, "no request is served after shutdown", not results, c.loc(arms["Request"]["sp"]), "", ("codes",))
+                out.add(item, "no request is served after shutdown", not results, rloc, "", ("codes",))
             else:
-                # main: per method arm
                 inner = None
-                for m in hir.nodes(arms["Request"]["body"], "Match"):
-                    if m["src"] == "match" and any(method_of(c, _pat_const(a["pat"])) for a in m["arms"] if _pat_const(a["pat"])):
-                        inner = m
-                        break
+                for rarm in arms["Request"]:
+                    for m in hir.nodes(rarm["body"], "Match"):
+                        if m["src"] == "match" and any(method_of(c, _pat_const(a["pat"])) for a in m["arms"] if _pat_const(a["pat"])):
+                            inner = m
+                            break
                 if inner is None:
-                    out.add(item, "dispatches on request.method", False, c.loc(arms["Request"]["sp"]), "", ("codes",))
+                    out.add(item, "dispatches on request.method", False, rloc, "", ("codes",))
                 else:
                     for a in inner["arms"]:
                         pc = _pat_const(a["pat"])
@@ -265,29 +333,25 @@ def rule_lifecycle(prog):
                             out.add(item, "%s is answered with a result" % meth, results == 1 and not acodes, c.loc(a["sp"]),
                                     "", ("codes",))
             # (c) exit handling
-            narm = arms["Notification"]
-            exits = [n for n in hir.nodes(narm["body"], "Call") if is_exit_call(n)]
-            exit_guarded = _exit_branches(c, narm)
+            exits = []
+            exit_guarded = []
+            for narm in arms["Notification"]:
+                exits += [n for n in hir.nodes(narm["body"], "Call") if is_exit_call(n)]
+                exit_guarded += _exit_branches(c, narm)
+            nloc = c.loc(arms["Notification"][0]["sp"])
             if name == "shutdown":
-                ok = not exits and any(kind == "break" for kind in exit_guarded)
-                out.add(item, "`exit` after shutdown leaves the loop (process ends with status 0 after flushing)", ok,
-                        c.loc(narm["sp"]), "exit branches: %s, process::exit calls: %d" % (exit_guarded, len(exits)), ("exit",))
+                ok = not exits and exit_guarded and all(kind in ("break", "return-ok") for kind in exit_guarded)
+                out.add(item, "`exit` after shutdown leaves the loop (process ends with status 0 after flushing)", bool(ok),
+                        nloc, "exit branches: %s, process::exit calls: %d" % (exit_guarded, len(exits)), ("exit",))
             else:
                 ok = len(exits) == 1 and exit_guarded == ["exit"]
-                out.add(item, "`exit` without shutdown terminates with process::exit(1)", ok, c.loc(narm["sp"]),
+                out.add(item, "`exit` without shutdown terminates with process::exit(1)", ok, nloc,
                         "exit branches: %s" % exit_guarded, ("exit",))
             # Response arm: error
-            rarm = arms["Response"]
-            rets = [n for n in hir.nodes(rarm["body"], "Ret")]
-            out.add(item, "a Response from the client is an error", bool(rets), c.loc(rarm["sp"]), "", ("shape",))
+            rets = [n for rarm in arms["Response"] for n in hir.nodes(rarm["body"], "Ret")]
+            out.add(item, "a Response from the client is an error", bool(rets), c.loc(arms["Response"][0]["sp"]), "", ("shape",))
         # (e) falls through to Ok(())
-        tail = _async_tail(b)
-        ok = False
-        if tail is not None:
-            t = hir.strip(tail)
-            d = hir.path_def(t.get("f", {})) if t.get("k") == "Call" else None
-            ok = bool(d) and last(d.get("ctor_of", "")) == "Ok"
-        out.add("server::phases::" + name, "end of input falls through to Ok(())", ok, c.loc(b["sp"]),
+        out.add("server::phases::" + name, "end of input falls through to Ok(())", _tail_ok(prog, b), c.loc(b["sp"]),
                 "when the client's stream ends the phase must return normally", ("eof",))
     # (d) run(): senders are dropped/moved before awaiting the tasks
     run = [b for b in c.bodies if b["d"] == "server::LanguageServer::run"]
@@ -388,7 +452,7 @@ def _pat_const(p):
 
 
 def _exit_branches(c, narm):
-    """What is executed under the `Exit::METHOD` test in a Notification arm: list of 'exit' / 'break' / 'other'."""
+    """What is executed under the `Exit::METHOD` test in a Notification arm: 'exit' / 'break' / 'return-ok' / 'other'."""
     res = []
 
     def kind_of(body):
@@ -396,17 +460,31 @@ def _exit_branches(c, narm):
             return "exit"
         if any(True for _ in hir.nodes(body, "Break")):
             return "break"
+        for r in hir.nodes(body, "Ret"):
+            e = hir.strip(r["e"]) if r.get("e") else {}
+            d = hir.path_def(e.get("f", {})) if e.get("k") == "Call" else None
+            if d and last(d.get("ctor_of", "")) == "Ok":
+                return "return-ok"
         return "other"
 
+    def tests_exit(cond):
+        cond = hir.strip(cond)
+        for bn in hir.nodes(cond, "Binary"):
+            if bn["op"] == "==" and "Exit" in (method_of(c, bn["l"]), method_of(c, bn["r"])):
+                return True
+        return False
+
+    if narm.get("guard") is not None and tests_exit(narm["guard"]):
+        res.append(kind_of(narm["body"]))
     for n in hir.nodes(narm["body"]):
-        if n.get("k") == "If":
-            cond = hir.strip(n["cond"])
-            if cond.get("k") == "Binary" and cond["op"] == "==" and "Exit" in (method_of(c, cond["l"]), method_of(c, cond["r"])):
-                res.append(kind_of(n["then"]))
+        if n.get("k") == "If" and tests_exit(n["cond"]):
+            res.append(kind_of(n["then"]))
         if n.get("k") == "Match":
             for a in n["arms"]:
                 pc = _pat_const(a["pat"])
                 if pc and method_of(c, pc) == "Exit":
+                    res.append(kind_of(a["body"]))
+                elif a.get("guard") is not None and tests_exit(a["guard"]):
                     res.append(kind_of(a["body"]))
     return res
 
@@ -514,7 +592,7 @@ def rule_codec(prog):
             ce = hir.strip(s["init"])
     ok = ce is not None and ce.get("k") == "Binary" and ce["op"] == "+"
     out.add("LSCodec::decode", "content_end = content_start + content_length", ok, c.loc(dec["sp"]), "")
-    lits = [n["lit"].get("v") for n in hir.nodes(dec["body"], "Lit") if n["lit"]["k"] == "str"]
+    lits = [n["lit"].get("v") for n in hir.nodes_deep(prog, dec["body"]) if n.get("k") == "Lit" and n["lit"]["k"] == "str"]
     out.add("LSCodec::decode", "length is read from the `Content-Length` header", "Content-Length" in lits, c.loc(dec["sp"]), "string literals: %s" % lits)
     # encode: the number written is String::len() (bytes) of the very string that is written
     length_src = None
@@ -618,15 +696,23 @@ def rule_broker(prog):
             any(hir.callee_display(n) == "spl_frontend::AnalyzedSource::new" for n in hir.nodes(arms["Open"]["body"], "Call")),
             c.loc(arms["Open"]["sp"]), "", ("state",))
     upd = [n for n in hir.nodes(arms["Change"]["body"], "MethodCall") if (n.get("d") or "") == "spl_frontend::AnalyzedSource::update"]
-    ins = has(arms["Change"], "insert")
-    ok = len(upd) == 1 and len(ins) == 1
+    ok = len(upd) == 1
     if ok:
-        # the value inserted is the updated document
+        # the updated document flows back into the map: entry.insert(x) / docs.insert(k, x) / *slot = x
         newdoc = None
         for l in hir.nodes(arms["Change"]["body"], "Let"):
-            if l.get("init") is not None and hir.strip(l["init"]) is upd[0]:
+            if l.get("init") is not None and hir.strip(l["init"]) is upd[0] and l["pat"].get("k") == "Binding":
                 newdoc = "%s#%s" % (l["pat"]["name"], l["pat"]["id"])
-        ok = newdoc is not None and place(ins[0]["args"][0]) == newdoc
+
+        def is_new(e):
+            e_ = hir.strip(e)
+            return e_ is upd[0] or (newdoc is not None and place(e_) == newdoc)
+
+        stored = any(n["args"] and is_new(n["args"][-1]) for n in has(arms["Change"], "insert"))
+        for a_ in hir.nodes(arms["Change"]["body"], "Assign"):
+            if is_new(a_["r"]) and "AnalyzedSource" in c.tstr(a_["l"]["t"]):
+                stored = True
+        ok = stored
     out.add("document::broker", "Change stores the updated document", ok, c.loc(arms["Change"]["sp"]), "", ("state",))
     out.add("document::broker", "Close forgets the document", bool(has(arms["Close"], "remove")), c.loc(arms["Close"]["sp"]), "", ("state",))
     g = has(arms["GetInfo"], "get")
@@ -717,39 +803,51 @@ def rule_text_sync(prog):
                 c.loc(bad["sp"]) if bad else c.loc(b["sp"]),
                 "a range bound is derived from a text/length captured before the batch was processed: stale as soon as an earlier "
                 "change of the same notification changed the length", ("batch",))
-    # UTF16: column counters in as_position / get_insertion_index
+    # UTF16: column counters in as_position / get_insertion_index (and private helpers they share)
     for fn in ("as_position", "get_insertion_index"):
         fb = prog.body("lsp4spl::document::" + fn)
         if fb is None:
             out.missing("document::" + fn)
             continue
-        # the variable compared with / stored into Position.character
-        colvars = set()
-        for s in hir.nodes(fb["body"], "Struct"):
-            if (s.get("adt") or "").endswith("lsp_types::Position"):
-                for f in s["fields"]:
-                    if f["name"] == "character":
-                        pl = place(f["e"])
-                        if pl:
-                            colvars.add(pl)
-        for n in hir.nodes(fb["body"], "Let"):
-            init = hir.strip(n.get("init") or {})
-            if init.get("k") == "Tup" and any((place(e) or "").endswith(".character") for e in init["es"]):
-                # pos = (position.line, position.character); find the tuple compared with it
-                posv = "%s#%s" % (n["pat"]["name"], n["pat"]["id"]) if n["pat"].get("k") == "Binding" else None
-                for cmpn in hir.nodes(fb["body"], "Binary"):
-                    if cmpn["op"] == "==" and posv in (place(cmpn["l"]), place(cmpn["r"])):
-                        other = cmpn["l"] if place(cmpn["r"]) == posv else cmpn["r"]
-                        other = hir.strip(other)
-                        if other.get("k") == "Tup" and len(other["es"]) == 2:
-                            pl = place(other["es"][1])
+        bodies_ = [fb]
+        for call in hir.nodes(fb["body"]):
+            if call.get("k") in ("Call", "MethodCall"):
+                hb = hir.local_callee_body(prog, call)
+                if hb is not None and hb["p"].startswith("lsp4spl::document::") and hb not in bodies_:
+                    bodies_.append(hb)
+        incs_all = []
+        for bb in bodies_:
+            colvars = set()
+            for st in hir.nodes(bb["body"], "Struct"):
+                if (st.get("adt") or "").endswith("lsp_types::Position"):
+                    for f in st["fields"]:
+                        if f["name"] == "character":
+                            pl = place(f["e"])
                             if pl:
                                 colvars.add(pl)
-        incs = [n for n in hir.nodes(fb["body"], "AssignOp") if n["op"] == "+=" and place(n["l"]) in colvars]
-        if not colvars or not incs:
+            for n in hir.nodes(bb["body"], "Let"):
+                init = hir.strip(n.get("init") or {})
+                if init.get("k") == "Tup" and any((place(e) or "").endswith(".character") for e in init["es"]):
+                    posv = "%s#%s" % (n["pat"]["name"], n["pat"]["id"]) if n["pat"].get("k") == "Binding" else None
+                    for cmpn in hir.nodes(bb["body"], "Binary"):
+                        if cmpn["op"] == "==" and posv in (place(cmpn["l"]), place(cmpn["r"])):
+                            other = cmpn["l"] if place(cmpn["r"]) == posv else cmpn["r"]
+                            other = hir.strip(other)
+                            if other.get("k") == "Tup" and len(other["es"]) == 2:
+                                pl = place(other["es"][1])
+                                if pl:
+                                    colvars.add(pl)
+            for n in hir.nodes(bb["body"], "AssignOp"):
+                if n["op"] != "+=":
+                    continue
+                l = hir.strip(n["l"])
+                is_col_field = l.get("k") == "Field" and l["name"] == "character" and "lsp_types::Position" in c.tstr(l["base"]["t"])
+                if place(n["l"]) in colvars or is_col_field:
+                    incs_all.append((bb, n))
+        if not incs_all:
             out.add("document::" + fn, "column counter found", None, c.loc(fb["sp"]), "", ("utf16",))
             continue
-        for n in incs:
+        for bb, n in incs_all:
             utf16 = any(m["m"] in ("len_utf16", "encode_utf16") for m in hir.nodes(n["r"], "MethodCall"))
             one = hir.lit_value(n["r"]) == "1"
             out.add("document::" + fn, "column advances by UTF-16 code units", utf16 if (utf16 or one) else None, c.loc(n["sp"]),
